@@ -93,8 +93,11 @@ def invert4rankTensor(c4):
 
     This is done by converting to 2nd rank, inverting, then converting back to 4th rank
     '''
+    #In the 6x6 form a double contraction counts every shear component twice (ij and ji),
+    #    so the inverse with respect to the double contraction is W^-1 * inv(c2) * W^-1 with W = diag(1,1,1,2,2,2)
     c2 = convert4To2rankTensor(c4)
-    return convert2To4rankTensor(np.linalg.inv(c2))
+    wInv = np.array([1, 1, 1, 0.5, 0.5, 0.5])
+    return convert2To4rankTensor(wInv[:,np.newaxis] * np.linalg.inv(c2) * wInv[np.newaxis,:])
 
 def convertVecTo2rankTensor(v):
     '''
@@ -573,8 +576,11 @@ class EllipsoidalEnergyDescription(StrainEnergyDescriptionBase):
         V = 4*np.pi/3 * np.prod(radius)
         S = convert4To2rankTensor(self.Sijmn(self.Dijkl(radius, c4)))
         eigFlat = convert2rankToVec(eigenstrain)
-        multTerm = np.matmul(c2, S - np.eye(6))
-        return -0.5 * V * np.matmul(eigFlat, np.matmul(multTerm, eigFlat))
+        #A contraction over the 6 components counts the shear components twice (ij and ji)
+        w = np.array([1, 1, 1, 2, 2, 2])
+        strain = np.matmul(S, w*eigFlat) - eigFlat
+        stress = np.matmul(c2, w*strain)
+        return -0.5 * V * np.sum(w * stress * eigFlat)
 
     def strainEnergyBohm(self, radius):
         '''
@@ -604,11 +610,16 @@ class EllipsoidalEnergyDescription(StrainEnergyDescriptionBase):
         V = 4*np.pi/3 * np.prod(radius)
         S = convert4To2rankTensor(self.Sijmn(self.Dijkl(radius, cM4)))
         eigFlat = convert2rankToVec(eigenstrain)
-        invTerm = np.linalg.inv(np.matmul(cP2 - cM2, S) + cM2)
-        multTerm = np.matmul(invTerm, cP2)
-        stressC = np.matmul(cM2, np.matmul(np.matmul(S, multTerm), eigFlat))
-        stress0 = np.matmul(cM2, np.matmul(multTerm, eigFlat))
-        return -0.5 * V * np.matmul(eigFlat, stressC - stress0)
+        #A contraction over the 6 components counts the shear components twice (ij and ji)
+        w = np.array([1, 1, 1, 2, 2, 2])
+        W = np.diag(w)
+        Winv = np.diag(1/w)
+        invTerm = np.matmul(Winv, np.matmul(np.linalg.inv(np.matmul(np.matmul(cP2 - cM2, W), S) + cM2), Winv))
+        multTerm = np.matmul(np.matmul(invTerm, W), cP2)
+        strain0 = np.matmul(multTerm, w*eigFlat)
+        stressC = np.matmul(cM2, w*np.matmul(S, w*strain0))
+        stress0 = np.matmul(cM2, w*strain0)
+        return -0.5 * V * np.sum(w * (stressC - stress0) * eigFlat)
 
     def computeStrainEnergy(self, radius):
         return self.strainEnergyBohm(radius)
